@@ -289,6 +289,9 @@ package logqlengine
 //@   modifies nothing
 //@   ensures[type]      typeis[*aggregatedLabels](ret0)
 //@   ensures[intersect] visibleLabel(as[*aggregatedLabels](ret0), name) == (visibleLabel(a, name) && inLabels(labels, name))
+//@   loop 0 modifies by[*]
+//@   loop 0 invariant by != nil && rangeindex+1 <= len(labels)
+//@   loop 0 invariant has(by, name) == (exists(0, rangeindex+1, func(j int) bool { return string(labels[j]) == name }) && (a.by == nil || has(a.by, name)))
 
 //@ func (*aggregatedLabels).Without
 //@   logical name string
